@@ -114,6 +114,9 @@ def run(tier="quick", replay=None):
                 from defs import const_bytes
                 kconsts = [c.get("str") for x in ksrc for c in fl.consts.get(x, []) if "str" in c] + \
                           [b.decode("latin1") for x in ksrc for b in const_bytes(fl.consts.get(x, []))]
+                # named constants (`const ARGUMENTS_SUFFIX: &str = "_arguments"`) mentioned directly or through a promoted
+                kconsts += [prog.consts[c.get("uneval")]["str"] for x in ksrc for c in fl.consts.get(x, [])
+                            if c.get("uneval") in prog.consts and "str" in prog.consts[c.get("uneval")]]
                 suffix = "".join(k for k in kconsts if k)
                 if "_arguments" in suffix:
                     ok = key_from_hash and p_args in vsrc and p_name not in vsrc
